@@ -148,7 +148,12 @@ impl Iterator for Lines {
 pub struct Split {
     input: KString,
     pattern: KString,
+    // The start of the next part
     start: usize,
+    // The position from which the next match of the pattern is searched for
+    search_from: usize,
+    // True when the last part has been produced
+    finished: bool,
 }
 
 impl Split {
@@ -158,6 +163,8 @@ impl Split {
             input,
             pattern,
             start: 0,
+            search_from: 0,
+            finished: false,
         }
     }
 }
@@ -172,24 +179,51 @@ impl Iterator for Split {
     type Item = Output;
 
     fn next(&mut self) -> Option<Self::Item> {
-        let start = self.start;
-        if start <= self.input.len() {
-            let end = match self.input[start..].find(self.pattern.as_str()) {
-                Some(end) => start + end,
-                None => self.input.len(),
-            };
-
-            let output = KValue::Str(self.input.with_bounds(start..end).unwrap());
-            self.start = end + self.pattern.len();
-            Some(Output::Value(output))
-        } else {
-            None
+        if self.finished {
+            return None;
         }
+
+        let start = self.start;
+        let next_match = self
+            .input
+            .get(self.search_from..)
+            .and_then(|remaining| remaining.find(self.pattern.as_str()))
+            .map(|position| self.search_from + position);
+
+        let end = match next_match {
+            Some(end) => {
+                self.start = end + self.pattern.len();
+                self.search_from = if self.pattern.is_empty() {
+                    // An empty pattern matches at each character boundary, so the search for the
+                    // next match has to skip over the following character. After the match at the
+                    // end of the input there are no more matches.
+                    match self.input[end..].chars().next() {
+                        Some(c) => end + c.len_utf8(),
+                        None => self.input.len() + 1,
+                    }
+                } else {
+                    self.start
+                };
+                end
+            }
+            None => {
+                self.finished = true;
+                self.input.len()
+            }
+        };
+
+        let output = KValue::Str(self.input.with_bounds(start..end).unwrap());
+        Some(Output::Value(output))
     }
 
     fn size_hint(&self) -> (usize, Option<usize>) {
-        let remaining_bytes = self.input.len().saturating_sub(self.start);
-        (1.min(remaining_bytes), Some(remaining_bytes))
+        if self.finished {
+            (0, Some(0))
+        } else {
+            let remaining_bytes = self.input.len().saturating_sub(self.start);
+            // There's always at least one more part, and at most one part per remaining match
+            (1, Some(remaining_bytes + 2))
+        }
     }
 }
 
